@@ -655,6 +655,38 @@ impl World for C12World {
                 clients[c2].insert(at2, big_step(op2));
             }
         }
+        // high-water mark: a call whose result is one ring of thousands of vertices, and later on the same client
+        // small calls on shapes that touch in a single vertex (anything a thread keeps from the large call — the
+        // capacity of a reused buffer, a grown table — would have to show in the small ones)
+        if r.chance(1, 25) {
+            let teeth = 600 + r.below(2400);
+            let mut ring: Vec<[f64; 2]> = vec![[0.0, 0.0]];
+            for i in 0..teeth {
+                let y = (2 * i) as f64;
+                ring.extend([[1.0, y], [10.0, y], [10.0, y + 1.0], [1.0, y + 1.0]]);
+            }
+            ring.extend([[0.0, (2 * teeth - 1) as f64], [0.0, 0.0]]);
+            let comb: Operand = vec![vec![ring]];
+            let bump: Operand = vec![vec![vec![[-1.0, -1.0], [0.5, -1.0], [0.5, 1.0], [-1.0, 1.0], [-1.0, -1.0]]]];
+            let tri_a: Operand = vec![vec![vec![[0.0, 0.0], [4.0, 0.0], [4.0, 1.0], [0.0, 0.0]]]];
+            let tri_b: Operand = vec![vec![vec![[0.0, 0.0], [4.0, 2.0], [4.0, 4.0], [0.0, 0.0]]]];
+            let both: Operand = vec![tri_a[0].clone(), tri_b[0].clone()];
+            let sq_a: Operand = vec![vec![vec![[0.0, 0.0], [2.0, 0.0], [2.0, 2.0], [0.0, 2.0], [0.0, 0.0]]]];
+            let sq_b: Operand = vec![vec![vec![[2.0, 2.0], [4.0, 2.0], [4.0, 4.0], [2.0, 4.0], [2.0, 2.0]]]];
+            let far: Operand = vec![vec![vec![[20.0, 0.0], [22.0, 0.0], [22.0, 2.0], [20.0, 2.0], [20.0, 0.0]]]];
+            let base = operands.len() as u32;
+            operands.extend([comb, bump, tri_a, tri_b, both, sq_a, sq_b, far]);
+            let mk = |op: u8, l: u32, rr: u32| Step { retire: false, op, lhs: Src::Pool(base + l), rhs: Src::Pool(base + rr), pairing: 0, f32_: false, heap: 0, clone_ops: false, cancel: 0, save: false, repeat: 1 };
+            let c = r.below(clients.len() as u64) as usize;
+            let at = r.below(clients[c].len() as u64 + 1) as usize;
+            clients[c].insert(at, mk(*r.pick(&[1u8, 3, 1]), 0, 1));
+            let small = [(2u32, 3u32), (4, 7), (5, 6), (4, 5), (3, 2)];
+            for _ in 0..(2 + r.below(3)) {
+                let (l, rr) = *r.pick(&small);
+                let pos = at + 1 + r.below((clients[c].len() - at) as u64) as usize;
+                clients[c].insert(pos, mk(r.below(4) as u8, l, rr));
+            }
+        }
         let yield16 = if faulty { *fr.pick(&[0u64, 1, 1, 4, 16]) } else { 0 };
         C12World {
             operands, clients, yield16,
